@@ -94,6 +94,13 @@ def gen_histories(ctx, vh, n, quick):
         elif x < 0.62 and syn_ok: starts.append((r.choice(syn_ok), 0))
         elif x < 0.80 and game_pos: starts.append((r.choice(game_pos), 0))
         else: starts.append((r.choice(PROMO_FENS), 1))
+    # counters near the serialisation field widths (hmc 8 bits, fmc 16 bits) and the 50-move region
+    for i, (fen, mode) in enumerate(starts):
+        if r.random() < 0.08:
+            f = fen.split(" ")
+            f[4] = str(r.choice([0, 98, 99, 100, 150, 250, 254, 255, 256, 300]))
+            f[5] = str(r.choice([1, 2, 65530, 65534, 65535, 65536, 70000]))
+            starts[i] = (" ".join(f), mode)
     lines = []
     for fen, mode in starts:
         x = r.random()
@@ -262,11 +269,11 @@ def run(ctx):
         ctx.violation(f"cannot dump the Zobrist tables: {t[:1]}", {"kind": "correspondence", "tie": "zobrist-tables"}, no_input=True); return
     init = "pos init " + t[0]
     # tables used by makeMove: epMaskW/B, castleSqMask vs the model's formulas / Spec.castleKeep
-    o1, o2, mis = vlib.diff_lines(ctx, "ep-and-castle-masks", [init, "pos masks"])
-    ctx.count(2)
+    o1, o2, mis = vlib.diff_lines(ctx, "ep-and-castle-masks", [init, "pos masks", "pos matw"])
+    ctx.count(3)
     if mis is not None:
         ctx.violation(f"epMask / castleSqMask table differs from the model: impl `{o1[mis][:200]}` model `{o2[mis][:200]}`",
-                      {"kind": "correspondence", "tie": "ep-and-castle-masks", "theorem": "Props.C02.makeMove_refines (castleKeep, epMaskW/B)", "input": ["pos masks"]}, no_input=True)
+                      {"kind": "correspondence", "tie": "ep-and-castle-masks", "theorem": "Props.C02.makeMove_refines (castleKeep, epMaskW/B) / matWeights_eq", "input": ["pos masks", "pos matw"]}, no_input=True)
     # histories
     n = 2000 if quick else 110000
     stats = {k: 0 for k in ("ops", "start", "make", "takeback", "null", "copy", "captures", "ep_captures", "promotions", "castlings", "ep_set",
